@@ -54,6 +54,14 @@ def route_instances():
             out.append(('media', f'/dash/{mode}/{stream}/{f}/3.{ext}'))
             out.append(('media', f'/dash/{mode}/{stream}/{f}/time/1920.{ext}'))
         out.append(('media', f'/dash/odvod/{stream}/{f}.{ext}'))
+    # boundary values of the numeric path parameters (segment number, segment time, period key)
+    for mode in ('live', 'vod'):
+        for big in ('0', '99999999', '4294967296', '9' * 22):
+            out.append(('media', f'/dash/{mode}/bbb/bbb_v7/{big}.m4v'))
+            out.append(('media', f'/dash/{mode}/bbb/bbb_a1/time/{big}.m4a'))
+            out.append(('mps-media', f'/mps/{mode}/testmps/1/bbb_v7/{big}.m4v'))
+            out.append(('mps-media', f'/mps/{mode}/testmps/1/bbb_v7/time/{big}.m4v'))
+        out.append(('mps-media', f'/mps/{mode}/testmps/{"9" * 22}/bbb_v7/2.m4v'))
     out += [('patch', '/patch/bbb/hand_made/1709294400'), ('patch', '/patch/bbb/manifest_e/1709294400'),
             ('patch', '/patch/synempty/hand_made/1'), ('mps', '/mps/live/testmps/hand_made.mpd'),
             ('mps', '/mps/vod/testmps/hand_made.mpd'), ('mps', '/mps/vod/nosuch/hand_made.mpd'),
